@@ -7,7 +7,7 @@ and a loop over the front, `chunks_exact(2)` plus `remainder()`, a prologue on `
 rest.  The rules therefore do not ask *where* the evaluation is written (inside a closure, inside a loop) but *which
 operands it can denote*:
 
-    view        ::= ALL | init(view) | tail(view) | chunks(view, n) | rem(view, n) | skip(view, n) | unknown
+    view        ::= ALL | init(view) | tail(view) | chunks(view, n) | windows(view, n) | rem(view, n) | skip(view, n) | unknown
     descriptor  ::= elem(view, iteration, sub)     the element an iteration over `view` is at (sub: position inside a chunk)
                  |  fixed(view, index)             view[index], index ∈ ℕ ∪ {last}
 
@@ -67,6 +67,10 @@ def view_of(e, args_param, depth=0):
         if m and len(e[2]) == 2:
             n = strip_refs(e[2][1])
             return ("chunks", view_of(e[2][0], args_param, depth + 1), const_value(n[1]) if n[0] == "const" else None)
+        m = re.search(r"::(windows)$", p)
+        if m and len(e[2]) == 2:
+            n = strip_refs(e[2][1])
+            return ("windows", view_of(e[2][0], args_param, depth + 1), const_value(n[1]) if n[0] == "const" else None)
         if p.endswith("ChunksExact::<'a, T>::remainder") or p.endswith("::remainder"):
             v = view_of(e[2][0], args_param, depth + 1)
             if v[0] == "chunks":
@@ -219,7 +223,9 @@ def disjoint(a, b):
     va, vb = a.view, b.view
     if a.kind == "elem" and b.kind == "elem":
         if a.iteration == b.iteration:
-            return a.sub != b.sub
+            # two positions of one chunk are different operands; two positions of one *window* are not (position 1 of
+            # a window is position 0 of the next); of an element of a view that was not read nothing is known
+            return a.sub != b.sub and va[0] in ("chunks",)
         if a.iter_obj is not None and a.iter_obj == b.iter_obj and va == vb and va[0] != "unknown" and a.sub is None and b.sub is None:
             return True     # two different next() sites on one iterator object: the iterator has moved on in between
         return views_disjoint(va, vb)
